@@ -13,7 +13,7 @@ ALL_OPS = ["build", "build2", "badsyntax", "badliteral", "rmlib", "rmkb", "rmins
 
 # property -> list of (label, kbs, depth_quick, depth_thorough, ops, max_inst)
 CONFIGS = {
-    "C16": [("one-kb", ["k1"], 4, 5, ["build", "build2", "rmlib", "rmkb", "rminst", "inst", "store", "load"], 2),
+    "C16": [("one-kb", ["k1"], 4, 5, ["build", "build2", "builddupc", "rmlib", "rmkb", "rminst", "inst", "store", "load"], 2),
             ("two-kbs", ["k1", "k2"], 3, 4, ["build", "rmlib", "rmkb", "inst", "store", "load"], 2)],
     "C17": [("rejected-builds", ["k1"], 4, 5, ["build", "badsyntax", "badliteral", "rmlib", "inst", "store", "load"], 2)],
     "C12": [("store-load", ["k1"], 4, 6, ["build", "rmlib", "inst", "store", "load"], 2),
@@ -54,7 +54,7 @@ def attribute(mm, steps):
     op, kind, i = mm["op"], mm["kind"], mm["step"]
     before = [s["op"] for s in steps[:i + 1]]
     rejected = any(o in ("badsyntax", "badliteral") for o in before)
-    dup = any(s["op"] in ("build", "build2") and not s["ok"] for s in steps[:i + 1])
+    dup = any(s["op"] in ("build", "build2", "builddupc") and not s["ok"] for s in steps[:i + 1])
     removed = any(o in ("rmlib", "rmkb", "rminst") for o in before)
     loaded = any(o == "load" for o in before)
     if kind == "panic":
@@ -62,7 +62,7 @@ def attribute(mm, steps):
     if kind == "reporter":
         return "C17"
     if kind == "ret":
-        return {"build": "C16", "build2": "C16", "badsyntax": "C17", "badliteral": "C17", "store": "C12", "load": "C12",
+        return {"build": "C16", "build2": "C16", "builddupc": "C16", "badsyntax": "C17", "badliteral": "C17", "store": "C12", "load": "C12",
                 "inst": "C17" if rejected else "C16" if (removed or dup) else "C12" if loaded else "C09"}.get(op, "C16")
     if kind in ("instantiate", "reload-instantiate"):
         return "C17" if rejected else "C16" if (removed or dup) else "C12" if (loaded or kind.startswith("reload")) else "C09"
